@@ -1,7 +1,8 @@
 (* Real-number lemmas for M_affine.v (C11, reused by C03/C04). *)
 From Coq Require Import ZArith Reals Lra Psatz List Bool Lia Nsatz.
 From PW Require Import Num NumR Vec Mat NpList Result.
-From PW.model Require Import M_rodrigues M_affine.
+From PW.model Require Import M_rodrigues M_affine M_rotation.
+From PW.model Require Export M_affine_spec.
 From PW.proofs Require Import P_vec P_mat P_nplist.
 Import ListNotations.
 Local Open Scope R_scope.
@@ -13,12 +14,6 @@ Proof.
   split; [|intros ->; apply vnorm_zero]. intros H. apply vnorm2_zero. rewrite <- vnorm_sq, H. ring.
 Qed.
 
-(* R R^T = I *)
-Definition orthogonal3 (r : mat3 R) : Prop := m3mul ROps r (m3transpose r) = I3 ROps.
-(* both products with the claimed inverse are the identity *)
-Definition inverse_pair (f i : mat4 R) : Prop := mmul ROps i f = I4 ROps /\ mmul ROps f i = I4 ROps.
-(* last row (0,0,0,1) *)
-Definition last_row_0001 (m : mat4 R) : Prop := m30 m = 0 /\ m31 m = 0 /\ m32 m = 0 /\ m33 m = 1.
 
 Lemma last_row_affine m : last_row_0001 m <-> affine ROps m.
 Proof. unfold last_row_0001, affine, n0, n1; rops. tauto. Qed.
@@ -85,10 +80,6 @@ Proof. dv t; dv v. aunf. split; apply V3_inj; munf; ring. Qed.
 Lemma tm_translation_inverse t : inverse_pair (fst (tm_translation ROps t)) (snd (tm_translation ROps t)).
 Proof. dv t. aunf. split; mat_eq; ring. Qed.
 
-(* ---------------- scale ---------------- *)
-Definition scale_fwd (x y z : R) : mat4 R := convert_33_to_44 ROps (M3 x 0 0 0 y 0 0 0 z).
-Definition scale_accepted (x y z : R) (allow : bool) : Prop :=
-  x <> 0 /\ y <> 0 /\ z <> 0 /\ (allow = true \/ (0 < x /\ 0 < y /\ 0 < z)).
 
 Lemma tm_nus_accepts x y z allow : scale_accepted x y z allow ->
   tm_non_uniform_scale ROps x y z allow = Ok (scale_fwd x y z, scale_fwd (1 / x) (1 / y) (1 / z)).
@@ -283,9 +274,6 @@ Proof.
   rewrite removelast_last. intros H. rewrite cprod_app, fold_left_app. cbn [fold_left cprod].
   rewrite mmul_I4_l, mapply_pt_mmul by (apply cprod_affine, H). f_equal. apply cprod_left_to_right, H.
 Qed.
-(* apply_transform drops w without dividing: with a projective matrix in front the sequential reading fails *)
-Definition proj_witness_a : mat4 R := M4 1 0 0 0  0 1 0 0  0 0 1 0  1 0 0 1.
-Definition proj_witness_b : mat4 R := M4 1 0 0 1  0 1 0 0  0 0 1 0  0 0 0 1.
 Lemma compose_projective_counterexample :
   mapply_pt ROps (compose_transforms ROps [proj_witness_a; proj_witness_b]) (V3 1 0 0) = V3 3 0 0 /\
   mapply_pt ROps proj_witness_b (mapply_pt ROps proj_witness_a (V3 1 0 0)) = V3 2 0 0.
